@@ -1200,7 +1200,7 @@ theorem fieldLoop_keeps (fuel : Nat) (s : Srv) (st : Strm) (bs eh : Bool) (fp : 
         | exact ⟨rfl, rfl, rfl, rfl⟩
         | exact ⟨rfl, rfl, rfl, fieldUpdate_sk _ _⟩
         | (rename_i dec fo rest _ _ _
-           have := ih { s with dec := dec } (fieldStep s.cfg st (fo.getD ⟨[], [], false⟩)).1 (fp + 1) rest
+           have := ih { s with dec := dec } (fieldStep s.cfg { st with fieldSeen := true } fo).1 (fp + 1) rest
            simp only [fieldStep] at this ⊢
            rw [fieldUpdate_sk] at this
            exact this)
@@ -2092,13 +2092,13 @@ theorem reqView_eq (st : Strm) :
        (match st.view.userAgent with | some v => [(Gen.s_StringUserAgent, v)] | none => []) ++ st.view.fields) st.body := rfl
 
 /-- the fields the loop of `handleHeaderFrame` takes from the octets `b`: one per successful `Hpack.Dec.next`
-call (`nextField`; an input that held dynamic table size updates only counts as the empty field, F05) -/
+call that yields a field (`nextField`; an input that held dynamic table size updates only yields none) -/
 def loopFields : Nat → Hpack.DecState → Bool → Nat → Bytes → List Hpack.Field
   | 0, _, _, _, _ => []
   | _, _, _, _, [] => []
   | fuel + 1, dec, bs, fp, b =>
     match Hpack.Dec.next dec bs fp b with
-    | .ok dec' fo rest => fo.getD ⟨[], [], false⟩ :: loopFields fuel dec' bs (fp + 1) rest
+    | .ok dec' (some f) rest => f :: loopFields fuel dec' bs (fp + 1) rest
     | _ => []
 
 /-- **the view after a header frame**: when the loop reports no error, the stream's view is the fold of
@@ -2120,12 +2120,16 @@ theorem fieldLoop_view (fuel : Nat) (s : Srv) (st : Strm) (bs eh : Bool) (fp : N
         · simp at hn
       | err => simp [fieldLoop, hd] at hn
       | ok dec fo rest =>
+        cases fo with
+        | none => simp [fieldLoop, loopFields, hd]
+        | some f =>
         simp only [fieldLoop, loopFields, hd, fieldStep] at hn ⊢
-        cases hv : fieldVerdict s.cfg st (fo.getD ⟨[], [], false⟩) with
+        cases hv : fieldVerdict s.cfg { st with fieldSeen := true } f with
         | some e => simp [hv] at hn
         | none =>
           simp only [hv] at hn ⊢
           rw [ih _ _ _ _ hn, fieldUpdate_view, List.foldl_cons]
+          rfl
 
 /-- `handleHeaderFrame` either fails before the loop or is the loop run on the carried-over tail of the previous
 frame followed by this frame's fragment (padding and priority already removed by the frame parser) -/
